@@ -717,7 +717,11 @@ func c05Arm(c *Ctx, core *ssa.Function, arm *ssa.BasicBlock, decrypt bool, tlane
 			if !ok {
 				continue
 			}
-			if _, isParam := ia.X.(*ssa.Parameter); !isParam {
+			// the state words: a []uint32 (or array of uint32) held in one value — a parameter or a local scratch array
+			if !isUint32Seq(ia.X.Type()) {
+				continue
+			}
+			if len(stores) > 0 && stores[0].base != ia.X {
 				continue
 			}
 			stores = append(stores, rstore{st, w, ia.X})
@@ -885,29 +889,42 @@ func keysOf(m map[int64]bool) []int64 {
 
 // c05Final: after the rounds: reverse transform, src-before-dst ordering, endianness helpers.
 func c05Final(c *Ctx, core *ssa.Function, top *ssa.If) {
-	// join block: the block both arms reach that is not dominated by either arm
-	var join *ssa.BasicBlock
-	for _, b := range core.Blocks {
-		if top.Block().Dominates(b) && b != top.Block() && !top.Block().Succs[0].Dominates(b) && !top.Block().Succs[1].Dominates(b) {
-			join = b
-			break
+	// the block of the reverse transform: outside every loop, on the way to every return, holding four stores
+	// state[j] = (load of state[k]) with constant j, k on one base — wherever the state lives (a parameter, a local
+	// array) and however the rounds before it are arranged (two arms, one merged loop)
+	inLoop := map[*ssa.BasicBlock]bool{}
+	for _, h := range loopHeaders(core) {
+		for b := range loopBlocks(h) {
+			inLoop[b] = true
 		}
 	}
-	if join == nil {
-		c.Undecided("K-C05-reverse", fname(core), "final reverse", "no join block after the two arms", core.Pos())
-		return
-	}
-	// reverse: stores to state[j] of loads of state[3-j], all loads before all stores
+	var join *ssa.BasicBlock
 	mapping := map[int64]int64{}
 	firstStore := -1
 	lastLoad := -1
-	for i, in := range join.Instrs {
-		if st, ok := in.(*ssa.Store); ok {
-			ia, ok := st.Addr.(*ssa.IndexAddr)
+	for _, cand := range core.Blocks {
+		if inLoop[cand] {
+			continue
+		}
+		onWay := true
+		for _, rb := range core.Blocks {
+			if _, isRet := rb.Instrs[len(rb.Instrs)-1].(*ssa.Return); isRet && rb != cand && !cand.Dominates(rb) {
+				onWay = false
+			}
+		}
+		if !onWay {
+			continue
+		}
+		m := map[int64]int64{}
+		fs, ll := -1, -1
+		var base0 ssa.Value
+		for i, in := range cand.Instrs {
+			st, ok := in.(*ssa.Store)
 			if !ok {
 				continue
 			}
-			if _, isP := ia.X.(*ssa.Parameter); !isP {
+			ia, ok := st.Addr.(*ssa.IndexAddr)
+			if !ok {
 				continue
 			}
 			j, ok := constInt(ia.Index)
@@ -915,23 +932,31 @@ func c05Final(c *Ctx, core *ssa.Function, top *ssa.If) {
 				continue
 			}
 			base, idx, ok := loadOfIndex(st.Val)
-			if !ok || base != ia.X {
+			if !ok || base != ia.X || (base0 != nil && base != base0) {
 				continue
 			}
 			k, ok := constInt(idx)
 			if !ok {
 				continue
 			}
-			mapping[j] = k
-			if firstStore < 0 {
-				firstStore = i
+			base0 = base
+			m[j] = k
+			if fs < 0 {
+				fs = i
 			}
 			if ld, ok := st.Val.(*ssa.UnOp); ok {
-				if li := instrIndex(ld); li > lastLoad && ld.Block() == join {
-					lastLoad = li
+				if li := instrIndex(ld); li > ll && ld.Block() == cand {
+					ll = li
 				}
 			}
 		}
+		if len(m) > len(mapping) {
+			join, mapping, firstStore, lastLoad = cand, m, fs, ll
+		}
+	}
+	if join == nil {
+		c.Undecided("K-C05-reverse", fname(core), "final reverse", "no block after the rounds exchanges state words", core.Pos())
+		return
 	}
 	okRev := len(mapping) == 4 && lastLoad < firstStore
 	for j := int64(0); j < 4; j++ {
@@ -1110,4 +1135,22 @@ func c05Endian(c *Ctx, f *ssa.Function, load bool) {
 	}
 	c.Check(good == total, "K-C05-endian", fname(f), what, fmt.Sprintf("%d conversions big-endian", good),
 		"a byte/word conversion is not big-endian (GM/T 0002 words are big-endian)", badPos)
+}
+
+// isUint32Seq: []uint32, [n]uint32 or a pointer to such an array
+func isUint32Seq(t types.Type) bool {
+	if p, ok := t.Underlying().(*types.Pointer); ok {
+		t = p.Elem()
+	}
+	var el types.Type
+	switch u := t.Underlying().(type) {
+	case *types.Slice:
+		el = u.Elem()
+	case *types.Array:
+		el = u.Elem()
+	default:
+		return false
+	}
+	b, ok := el.Underlying().(*types.Basic)
+	return ok && b.Kind() == types.Uint32
 }
